@@ -220,4 +220,44 @@ def Sys.run : Sys → List SLabel → Option Sys
 
 def Sys.init (lazyMax tdcMax : Nat) : Sys := ⟨Lazy.init lazyMax, Tdc.init tdcMax⟩
 
+/-! ### the transport's pick among its connections (`PipelineTransport.getReservedExchanger`)
+
+A connection is seen here only through its room: how many further reservations
+it admits (`Tdc.free` / `Lazy.free` of the models above; 0 = it refuses). The
+list is the order in which the loop visits the connections (Go's map order:
+any list). `stop`: the loop leaves at the first reservation it obtains
+(regenerated fact `c09PipelinePickStopsAtFirstReservation`); if it went on, a
+later reservation would replace the one it holds, which is then neither used
+nor withdrawn. `att` counts the refusals met so far (the loop gives up after
+more than `maxAttempt` of them), `i` is the position of the head of the list.
+Result: the rooms afterwards and the position of the connection whose
+reservation is handed to the caller (`none`: the transport dials a new connection). -/
+def pickGo (stop : Bool) (maxAttempt : Nat) : Nat → Nat → Option Nat → List Nat → List Nat × Option Nat
+  | _, _, cur, [] => ([], cur)
+  | att, i, cur, r :: rs =>
+    if r = 0 then
+      if att + 1 > maxAttempt then (r :: rs, cur)
+      else ((r :: (pickGo stop maxAttempt (att + 1) (i + 1) cur rs).1), (pickGo stop maxAttempt (att + 1) (i + 1) cur rs).2)
+    else if stop then ((r - 1) :: rs, some i)
+    else (((r - 1) :: (pickGo stop maxAttempt att (i + 1) (some i) rs).1), (pickGo stop maxAttempt att (i + 1) (some i) rs).2)
+
+def pick (stop : Bool) (maxAttempt : Nat) (rooms : List Nat) : List Nat × Option Nat := pickGo stop maxAttempt 0 0 none rooms
+
+def total : List Nat → Nat
+  | [] => 0
+  | r :: rs => r + total rs
+
+/-- reservations handed to the caller by one pick -/
+def handed : Option Nat → Nat
+  | none => 0
+  | some _ => 1
+
+/-- `n` queries one after the other, none of them finished: how many got a reservation, and the rooms left -/
+def pickN (stop : Bool) (maxAttempt : Nat) : Nat → List Nat → Nat × List Nat
+  | 0, rooms => (0, rooms)
+  | n + 1, rooms =>
+    match pick stop maxAttempt rooms with
+    | (rooms', some _) => ((pickN stop maxAttempt n rooms').1 + 1, (pickN stop maxAttempt n rooms').2)
+    | (rooms', none) => pickN stop maxAttempt n rooms'
+
 end Model.C09
